@@ -35,6 +35,8 @@ pub enum K {
     EditCommit, // macro: update then commit
     Diverge, // macro: two replicas edit and commit concurrently, then one learns the other's work
     Trickle, // macro: every item a replica lacks is delivered one file at a time, refresh after each
+    Burst, // macro: a long run of successive small edits of the same objects (revision indices >= 10, >= 100)
+    SameEdit,
     N,
 }
 
@@ -92,6 +94,7 @@ pub fn profile_for(prop: &str, variant: u64) -> Profile {
         "C01" => {
             p.name = "convergence";
             w[K::Trickle as usize] = 6;
+            w[K::SameEdit as usize] = 2;
             w[K::Partition as usize] = 2;
             w[K::Heal as usize] = 2;
             w[K::ReloadUntil as usize] = 2;
@@ -132,6 +135,10 @@ pub fn profile_for(prop: &str, variant: u64) -> Profile {
         }
         "C05" | "C19" => {
             p.name = if prop == "C05" { "winner-rule" } else { "identifiers" };
+            w[K::Burst as usize] = 2;
+            if prop == "C19" {
+                w[K::SameEdit as usize] = 8;
+            }
             w[K::Diverge as usize] = 16;
             w[K::Update as usize] = 30;
             w[K::Resolve as usize] = 8;
@@ -228,6 +235,7 @@ pub fn profile_for(prop: &str, variant: u64) -> Profile {
         "C16" => {
             p.name = "array-chains";
             p.replicas = (1, 2);
+            w[K::Burst as usize] = 4;
             w[K::Update as usize] = 40;
             w[K::EditCommit as usize] = 20;
             w[K::Snapshot as usize] = 6;
@@ -269,6 +277,10 @@ pub struct Gen {
     pub emitted: usize,
     pub ended: bool,
     pub prelude_done: bool,
+    /// reads the generator itself performed on replicas while building the current batch; they
+    /// touch the library's caches, so they are recorded as `Op::Read` ahead of the batch and
+    /// replayed (the runner only accounts for them during generation)
+    pub peeked: Vec<usize>,
 }
 
 /// Per-run configuration drawn from the run seed (swarm).
@@ -319,7 +331,7 @@ pub fn make_cfg(prop: &str, run_seed: u64) -> (RunCfg, Gen) {
     // short runs dominate
     let (lo, hi) = prof.len;
     let target_len = if rng.chance(2, 3) { rng.range(lo, lo + (hi - lo) / 3) } else { rng.range(lo, hi) };
-    (cfg, Gen { rng, prof, w, target_len, emitted: 0, ended: false, prelude_done: false })
+    (cfg, Gen { rng, prof, w, target_len, emitted: 0, ended: false, prelude_done: false, peeked: vec![] })
 }
 
 fn commit_info(rng: &mut Rng, cfg: &DocCfg) -> Option<Value> {
@@ -360,6 +372,7 @@ impl Gen {
         let cfg = w.cfg.doc.clone();
         // base: what the user currently sees, else what they submitted last, else a new document
         let m = w.replicas[r].live.as_ref().unwrap();
+        self.peeked.push(r);
         let cur = crate::api::guard(|| m.read(None)).ok().and_then(|x| x.ok()).map(Value::Object);
         let mut base = match (cur, &w.replicas[r].model_doc) {
             (Some(mut c), _) => {
@@ -383,8 +396,20 @@ impl Gen {
         crate::api::guard(|| m.has_staging()).unwrap_or(false)
     }
 
-    /// Next batch of concrete ops (empty when the run is over).
-    pub fn next(&mut self, w: &World) -> Vec<Op> {
+    /// Next batch of concrete ops (empty when the run is over) and the number of leading
+    /// `Op::Read`s the generator has already performed itself.
+    pub fn next(&mut self, w: &World) -> (Vec<Op>, usize) {
+        self.peeked.clear();
+        let batch = self.next_inner(w);
+        let pre: Vec<Op> = self.peeked.iter().map(|r| Op::Read { r: *r }).collect();
+        let n = pre.len();
+        if batch.is_empty() {
+            return (vec![], 0);
+        }
+        (pre.into_iter().chain(batch).collect(), n)
+    }
+
+    fn next_inner(&mut self, w: &World) -> Vec<Op> {
         let n = w.replicas.len();
         if !self.prelude_done {
             self.prelude_done = true;
@@ -528,6 +553,42 @@ impl Gen {
                         v.push(Op::Send { from: other, to: r, sel: pos as u32, delay: 0, dup: self.rng.chance(1, 12), drop: false });
                         if self.rng.chance(5, 6) {
                             v.push(Op::Refresh { r });
+                        }
+                    }
+                    v
+                }
+            }
+            x if x == K::SameEdit as usize => {
+                if n < 2 {
+                    vec![]
+                } else {
+                    vec![Op::SameEdit { a: r, b: other, doc: self.next_doc(w, r) }]
+                }
+            }
+            x if x == K::Burst as usize => {
+                if w.replicas[r].time_travel {
+                    vec![Op::Reload { r }]
+                } else {
+                    let mut doc = self.next_doc(w, r);
+                    let count = if self.rng.chance(1, 12) { self.rng.range(100, 115) } else { self.rng.range(10, 24) };
+                    let mut v = vec![];
+                    for i in 0..count {
+                        // a small edit of the root and of one array, so that both an object chain and an
+                        // edit-script chain grow by one revision per step
+                        if let Some(o) = doc.as_object_mut() {
+                            o.insert("n".to_string(), json!(i));
+                            if let Some(Value::Array(a)) = o.get_mut(docgen::ARRAY_KEYS[0]) {
+                                if a.len() >= 2 {
+                                    a.rotate_left(1);
+                                    if let Some(e) = a[0].as_object_mut() {
+                                        e.insert("k".to_string(), json!(i));
+                                    }
+                                }
+                            }
+                        }
+                        v.push(Op::Update { r, doc: doc.clone(), twice: false });
+                        if self.rng.chance(1, 25) {
+                            v.push(Op::Commit { r, info: None });
                         }
                     }
                     v
